@@ -119,7 +119,14 @@ pub fn req_call(include_invalid: bool) -> BoxedStrategy<EncCall> {
                 3 => vec(proptest::array::uniform4(any::<u8>()), 0..=7),
                 1 => vec(proptest::array::uniform4(any::<u8>()), 7..=7),
                 1 => vec(proptest::array::uniform4(any::<u8>()), 0..=max_entries),
-            ].prop_map(|entries| ReqRoutingUpdate { entries }),
+            ].prop_map(|mut entries: Vec<[u8; 4]>| {
+                // now and then two neighbouring entries are identical
+                if entries.len() >= 2 && entries[0][0] & 3 == 0 {
+                    let i = (entries[0][1] as usize) % (entries.len() - 1);
+                    entries[i + 1] = entries[i];
+                }
+                ReqRoutingUpdate { entries }
+            }),
         1 => any_u8().prop_map(|handle| ReqGetRoutingTable { handle }),
         1 => Just(ReqPrepareDiscovery),
         1 => Just(ReqEndpointDiscovery),
@@ -259,6 +266,7 @@ pub fn sender_history() -> BoxedStrategy<Vec<Op>> {
     let single = prop_oneof![
         5 => (ref_valid_packet(), 64u16..=128, any::<u8>()).prop_map(|(bytes, cap, fill)| Op::Process { bytes, cap, fill }),
         2 => (actionable_request(), 64u16..=128, any::<u8>()).prop_map(|(bytes, cap, fill)| Op::Process { bytes, cap, fill }),
+        2 => (ctrl_request(0x23, 1, [2, 2, 2, 2, 2, 2, 2]), 64u16..=128, any::<u8>()).prop_map(|(bytes, cap, fill)| Op::Process { bytes, cap, fill }),
         1 => ref_valid_packet().prop_map(|bytes| Op::Decode { bytes }),
         2 => (prop_oneof![req_call(false), resp_call(false)], addr7()).prop_map(|(call, dest)| Op::Encode { call, dest }),
         1 => uuid().prop_map(Op::SetUuid),
@@ -311,6 +319,25 @@ fn vendor_sets() -> BoxedStrategy<Vec<(u8, u32, u16)>> {
 /// vendor sets of format 0/1.
 pub fn ctx_cfg() -> BoxedStrategy<CtxCfg> {
     (addr7(), msg_type_list(false), vendor_sets()).prop_map(|(addr, msg_types, vendors)| CtxCfg { addr, msg_types, vendors }).boxed()
+}
+
+/// As `ctx_cfg_maybe_no_vendor`, but one context in forty has 255 or 256
+/// vendor ID sets (the largest lists whose selectors still fit one byte).
+pub fn ctx_cfg_extreme() -> BoxedStrategy<CtxCfg> {
+    (ctx_cfg_maybe_no_vendor(), 0u8..40, any::<bool>(), vendor_set())
+        .prop_map(|(mut c, k, more, v)| {
+            if k == 0 {
+                let n = if more { 256 } else { 255 };
+                c.vendors = (0..n).map(|i| (v.0 ^ (i as u8 & 1), v.1.wrapping_add(i as u32), v.2.wrapping_add(i as u16))).collect();
+                for x in c.vendors.iter_mut() {
+                    if x.0 == 0 {
+                        x.1 &= 0xFFFF;
+                    }
+                }
+            }
+            c
+        })
+        .boxed()
 }
 
 /// As `ctx_cfg`, but one context in eight has no vendor ID set at all (an
@@ -687,7 +714,7 @@ pub fn responder_op(a: u8, nvend: usize, w: ReqWeights, seteid_noise: u32, uuid_
 
 /// (configuration, history) for the responder properties.
 pub fn responder_case(w: ReqWeights, seteid_noise: u32, uuid_updates: u32, max_ops: usize) -> BoxedStrategy<(CtxCfg, Vec<Op>)> {
-    (ctx_cfg(), any::<u8>(), 0u8..32, any::<u8>(), 0u8..32)
+    (if w[5] > 8 { ctx_cfg() } else { ctx_cfg_maybe_no_vendor() }, any::<u8>(), 0u8..32, any::<u8>(), 0u8..32)
         .prop_flat_map(move |(cfg, s1, i1, s2, i2)| {
             let a = cfg.addr;
             let n = cfg.vendors.len();
@@ -719,6 +746,10 @@ pub fn resp_case() -> BoxedStrategy<crate::props::common::RespCase> {
             if fill & 3 == 0 {
                 req[3] = fill.wrapping_mul(29) | 1;
             }
+            // ... and one in four is addressed (byte 0) to some other SMBus address
+            if fill & 12 == 4 {
+                req[0] = fill.wrapping_mul(53) & 0xFE;
+            }
             refmodel::fix_pec(&mut req);
             crate::props::common::RespCase { cfg, hist, req, cap, fill }
         })
@@ -733,7 +764,9 @@ pub fn similar_call(call: &EncCall, seed: u32) -> EncCall {
     use EncCall::*;
     let b = seed as u8;
     match call {
-        ReqVendor { format, data, numeric, msg } => match seed % 4 {
+        ReqVendor { format, data, numeric, msg } => match seed % 6 {
+            4 => ReqVendor { format: format ^ 1, data: data ^ (1 << (8 * (1 + (seed >> 8) % 3))), numeric: *numeric, msg: msg.clone() },
+            5 => ReqVendor { format: format ^ 1, data: data ^ ((*format as u32 ^ 1) << 24), numeric: *numeric, msg: msg.clone() },
             0 => ReqVendor { format: *format, data: data ^ (((seed >> 8) | 1) << 16), numeric: *numeric, msg: msg.clone() },
             1 => ReqVendor { format: *format, data: data ^ ((seed >> 8) & 0xFFFF | 1), numeric: *numeric, msg: msg.clone() },
             2 => ReqVendor { format: format ^ 1, data: *data, numeric: *numeric, msg: msg.clone() },
